@@ -221,23 +221,28 @@ func vndbig(args []string) error {
 	// rejected whatever separates them (nothing, blanks, tab + CR); with a line feed instead it is two documents
 	{
 		zero := abs.Value{K: '#', Lit: "0"}
-		for n := 700; n <= 706; n++ {
+		second := abs.Value{K: 'a', Arr: []abs.Value{{K: '#', Lit: "2"}}}
+		for n := 702; n <= 704; n++ {
 			elems := make([]abs.Value, n+1)
 			for i := range elems {
 				elems[i] = zero
 			}
 			first := abs.Value{K: 'a', Arr: elems}
-			second := abs.Value{K: 'a', Arr: []abs.Value{{K: '#', Lit: "2"}}}
-			for pad := 0; pad <= 70; pad++ {
-				head := "[" + strings.Repeat("0,", n) + "0" + strings.Repeat(" ", pad) + "]"
-				tail := "[" + strings.Repeat(" ", 70) + "2]"
-				for _, sep := range []string{"", " ", "\t\r"} {
-					cases = append(cases, nd{text: []byte(head + sep + tail), valid: false,
-						desc: fmt.Sprintf("two documents on one line, the first closing as structural #%d with %d blanks before the bracket, separator %q", 2*n+3, pad, sep)})
-				}
-				if pad%7 == 0 {
-					cases = append(cases, nd{text: []byte(head + "\n" + tail), want: []abs.Value{first, second}, valid: true,
-						desc: fmt.Sprintf("two lines, the first closing as structural #%d with %d blanks before the bracket", 2*n+3, pad)})
+			for lead := 0; lead < 64; lead++ { // shifts every later byte: the flush happens in a different block phase
+				for pad := 0; pad <= 70; pad++ {
+					head := "[" + strings.Repeat(" ", lead) + strings.Repeat("0,", n) + "0" + strings.Repeat(" ", pad) + "]"
+					tail := "[" + strings.Repeat(" ", 70) + "2]"
+					for _, sep := range []string{"", " "} {
+						if (lead+pad)%2 == 1 && sep == " " {
+							continue
+						}
+						cases = append(cases, nd{text: []byte(head + sep + tail), valid: false,
+							desc: fmt.Sprintf("two documents on one line, the first closing as structural #%d (%d blanks after '[', %d before ']'), separator %q", 2*n+3, lead, pad, sep)})
+					}
+					if (lead+pad)%11 == 0 {
+						cases = append(cases, nd{text: []byte(head + "\n" + tail), want: []abs.Value{first, second}, valid: true,
+							desc: fmt.Sprintf("two lines, the first closing as structural #%d (%d blanks after '[', %d before ']')", 2*n+3, lead, pad)})
+					}
 				}
 			}
 		}
